@@ -18,11 +18,12 @@ VARIABLES now,
           dropped,    \* sequence of [conn, at]: disconnect() called by the monitor
           stopped,
           conns,
+          internal,   \* inputs the TrafficTimer had no transition for
           last
-vars == <<now, tt, timer, conn, usable, pings, dropped, stopped, conns, last>>
+vars == <<now, tt, timer, conn, usable, pings, dropped, stopped, conns, internal, last>>
 
 Init == /\ now = 0 /\ tt = Init_TT /\ timer = 0 /\ conn = 0 /\ usable = FALSE /\ pings = <<>> /\ dropped = <<>>
-        /\ stopped = FALSE /\ conns = 0 /\ last = <<"Init", 0>>
+        /\ stopped = FALSE /\ conns = 0 /\ internal = <<>> /\ last = <<"Init", 0>>
 
 \* ---- TrafficTimer input: returns the new [tt, timer, pings, dropped]
 \* begin_timing = Manager._send_ping_reset_timer: send a ping (transmitted only if Outbound has the connection),
@@ -45,13 +46,14 @@ TTInput(inp, t0) ==
        RunOuts([tt |-> row.next, timer |-> t0, pings |-> pings, dropped |-> dropped, err |-> ""], row.outs)
   ELSE [tt |-> tt, timer |-> t0, pings |-> pings, dropped |-> dropped, err |-> "NoTransition:TT." \o tt \o "." \o inp]
 
-Set(r) == tt' = r.tt /\ timer' = r.timer /\ pings' = r.pings /\ dropped' = r.dropped
+Set(r) == /\ tt' = r.tt /\ timer' = r.timer /\ pings' = r.pings /\ dropped' = r.dropped
+          /\ internal' = IF r.err # "" THEN Append(internal, r.err) ELSE internal
 
 \* ---- time
 NextEvent == IF timer > 0 THEN timer ELSE Horizon + 1
 Tick == /\ now < Horizon /\ (timer = 0 \/ now < timer)
         /\ now' = now + 1 /\ last' = <<"Tick", now + 1>>
-        /\ UNCHANGED <<tt, timer, conn, usable, pings, dropped, stopped, conns>>
+        /\ UNCHANGED <<tt, timer, conn, usable, pings, dropped, stopped, conns, internal>>
 
 \* the interval timer expires: timer_expired() clears _timer and tells the TrafficTimer
 TimerFires == /\ timer > 0 /\ now = timer
@@ -64,6 +66,7 @@ Pong(k) == /\ k \in 1..Len(pings) /\ pings[k].conn = conn /\ conn > 0 /\ ~pings[
            /\ now < pings[k].sent + I /\ now >= pings[k].sent
            /\ LET r == TTInput("traffic_seen", timer) IN
               /\ tt' = r.tt /\ timer' = r.timer /\ dropped' = r.dropped
+              /\ internal' = IF r.err # "" THEN Append(internal, r.err) ELSE internal
               /\ pings' = [r.pings EXCEPT ![k].answered = IF now = 0 THEN 1 ELSE now]
            /\ last' = <<"Pong", k>>
            /\ UNCHANGED <<now, conn, usable, stopped, conns>>
@@ -86,7 +89,7 @@ ConnLost == /\ conn > 0
 Stop == /\ ~stopped /\ stopped' = TRUE
         /\ timer' = 0
         /\ last' = <<"Stop", now>>
-        /\ UNCHANGED <<now, tt, conn, usable, pings, dropped, conns>>
+        /\ UNCHANGED <<now, tt, conn, usable, pings, dropped, conns, internal>>
 
 Next == Tick \/ TimerFires \/ ConnMade \/ ConnLost \/ Stop \/ (\E k \in 1..(Horizon + 2) : Pong(k))
 Spec == Init /\ [][Next]_vars
@@ -111,5 +114,6 @@ DroppedWithinThree == \A i \in 1..Len(dropped) : \A k \in Unanswered(dropped[i].
        \/ \E k2 \in Unanswered(dropped[i].conn) : pings[k2].sent < pings[k].sent
 \* (c) monitoring stops with the connection / with dilation, and there is never more than one timer
 NoTimerWithoutConn == (conn = 0 \/ stopped) => timer = 0
+NoInternal == internal = <<>>
 MonitoredWhenConnected == (conn > 0 /\ ~stopped /\ DroppedAt(conn) = {}) => timer > 0
 ====
